@@ -345,11 +345,22 @@ func c20Run(c *ctx, g orb.Geometry) {
 		e := genVal{"k": "gen", "fn": f.name, "g": gm, "hastyped": 0, "haseach": 0, "typed": genNil, "each": []interface{}{}}
 		setCurrent(f.name, gm)
 		arg := g
-		if f.mut {
+		spareOk := func() bool { return true }
+		mut := f.mut
+		e["ro"] = 0
+		if _, isMP := g.(orb.MultiPoint); isMP && f.name == "clip.Geometry" {
+			// clip documents that only 1-d and 2-d input is used as scratch space; MultiPoint "returns a new set"
+			mut = false
+			e["ro"] = 1
+		}
+		if mut {
 			arg = orb.Clone(g)
 			if g != nil && arg == nil {
 				arg = typedClone(g)
 			}
+		} else {
+			// read-only entry points get a copy whose slices have spare capacity holding sentinels
+			arg, spareOk = spareCopy(g)
 		}
 		var res genVal
 		site := guard(func() { res = f.gen(arg) })
@@ -358,8 +369,12 @@ func c20Run(c *ctx, g orb.Geometry) {
 			continue
 		}
 		e["res"] = res
-		if !f.mut {
-			e["post"], _ = encGeom(g, intFn)
+		e["spare"] = 1
+		if !mut {
+			e["post"], _ = encGeom(arg, intFn)
+			if !spareOk() {
+				e["spare"] = 0
+			}
 		} else {
 			e["post"] = gm
 		}
@@ -458,6 +473,50 @@ func init() {
 			g := randGeom(c, 2, 4, coord)
 			if i%29 == 0 {
 				g = nil
+			}
+			if i%5 == 4 {
+				// multi-part geometries whose parts differ in how much a simplifier keeps: a zig-zag (everything kept) next
+				// to a straight run with redundant vertices of the same length (only the ends kept) - parts must not
+				// influence each other
+				k := 4 + c.rng.Intn(4)
+				zig := func() orb.LineString {
+					ls := orb.LineString{}
+					for j := 0; j < k; j++ {
+						ls = append(ls, orb.Point{float64(j), float64(2 * (j % 2))})
+					}
+					return ls
+				}
+				straight := func() orb.LineString {
+					ls := orb.LineString{}
+					for j := 0; j < k-c.rng.Intn(2); j++ {
+						ls = append(ls, orb.Point{float64(j), 3})
+					}
+					return ls
+				}
+				ringZig := func() orb.Ring { return orb.Ring{{0, 0}, {4, 0}, {2, 1}, {4, 2}, {2, 3}, {4, 4}, {0, 4}, {0, 0}} }
+				ringPlain := func() orb.Ring { return orb.Ring{{0, 0}, {1, 0}, {2, 0}, {4, 0}, {4, 2}, {4, 4}, {0, 4}, {0, 0}} }
+				parts := []orb.LineString{zig(), straight()}
+				if c.rng.Intn(2) == 0 {
+					parts = append(parts, zig())
+				}
+				c.rng.Shuffle(len(parts), func(a, b int) { parts[a], parts[b] = parts[b], parts[a] })
+				switch c.rng.Intn(4) {
+				case 0:
+					g = orb.MultiLineString(parts)
+				case 1:
+					col := orb.Collection{}
+					for _, p := range parts {
+						col = append(col, p)
+					}
+					g = col
+				case 2:
+					g = orb.MultiPolygon{{ringZig()}, {ringPlain()}}
+					if c.rng.Intn(2) == 0 {
+						g = orb.MultiPolygon{{ringPlain()}, {ringZig()}, {ringPlain()}}
+					}
+				default:
+					g = orb.Collection{orb.Polygon{ringZig()}, orb.Polygon{ringPlain()}, straight()}
+				}
 			}
 			c20Run(c, g)
 		}
